@@ -128,9 +128,10 @@ theorem late_caller_rejected_after_leftover_drop (cfg : Cfg) (s : State) (c : Na
 /-- A cancelled trial holds its slot until it has left the wrapped service. In the op language a caller
 that arrives while the cancelled trial's inner call is still being destroyed is `arrive c2; poll c2`
 placed BEFORE the `drop` (the harness's `manual ondrop`): with all slots taken it is rejected in that
-step, and neither the circuit nor the calls in flight change. -/
+step, and neither the circuit nor the calls in flight change. (`hup`: the wrapped service is ready — otherwise the
+caller does not even get to the breaker, `C03.not_ready_request_touches_nothing`.) -/
 theorem teardown_arrival_rejected (cfg : Cfg) (s : State) (c2 : Nat) (sc : Step) (tag : Nat) (fb : Step)
-    (hnew : s.seen.contains c2 = false) (hfr : findFresh s.fresh c2 = none)
+    (hnew : s.seen.contains c2 = false) (hfr : findFresh s.fresh c2 = none) (hup : s.gate = .up)
     (hst : s.circ.st = .halfOpen) (hfull : ¬ s.circ.hoAdmitted < cfg.permitted) :
     stepS cfg (stepS cfg s (.arrive c2 sc tag fb)) (.poll c2)
       = rejected cfg (stepS cfg s (.arrive c2 sc tag fb)) ⟨c2, sc, tag, fb⟩ ∧
@@ -138,7 +139,7 @@ theorem teardown_arrival_rejected (cfg : Cfg) (s : State) (c2 : Nat) (sc : Step)
     (stepS cfg (stepS cfg s (.arrive c2 sc tag fb)) (.poll c2)).running = s.running := by
   have h1 : stepS cfg s (.arrive c2 sc tag fb)
       = { s with fresh := s.fresh ++ [{ c := c2, sc := sc, tag := tag, fb := fb }], seen := c2 :: s.seen } := by
-    simp only [stepS, hnew, Bool.false_eq_true, if_false]
+    simp only [stepS, hnew, Bool.false_eq_true, if_false, hup, if_true]
   have hff : findFresh (s.fresh ++ [{ c := c2, sc := sc, tag := tag, fb := fb }]) c2
       = some { c := c2, sc := sc, tag := tag, fb := fb } := by
     unfold findFresh at hfr ⊢
@@ -211,6 +212,47 @@ example :
     let pre := [Op.forceOpen, .adv 10, .arrive 1 ⟨500, .ok⟩ 0, .poll 1, .arrive 2 ⟨0, .ok⟩ 0, .poll 2]
     (run cfg pre).circ.st = .halfOpen ∧ (run cfg pre).circ.hoAdmitted = 1 ∧ (run cfg pre).serial = 1 ∧
     (run cfg pre).log.getLast? = some (10, CEv.result 2 .openCircuit) := by
+  decide
+
+/-! ## A rejected caller holds no slot — and gives none back -/
+
+/-- The caller that is turned away from a half-open breaker whose trial slots are all taken leaves the breaker exactly as it
+was: `half_open_admitted` unchanged, the trials in flight still in flight. In particular the NEXT caller is turned away as
+well — a rejection never hands the slot of a running trial to somebody else (whatever the rejected caller's future does when it
+is dropped: it never held a trial slot). -/
+theorem rejected_caller_frees_nothing (cfg : Cfg) (s : State) (f g : Fresh)
+    (hst : s.circ.st = .halfOpen) (hfull : ¬ s.circ.hoAdmitted < cfg.permitted) :
+    (pollFresh cfg s f).circ = s.circ ∧
+    pollFresh cfg (pollFresh cfg s f) g = rejected cfg (pollFresh cfg s f) g := by
+  have h1 : (pollFresh cfg s f).circ = s.circ := by
+    rw [excess_rejected cfg s f hst hfull]; exact rejected_circ cfg s f
+  refine ⟨h1, excess_rejected cfg _ g ?_ ?_⟩
+  · rw [h1]; exact hst
+  · rw [h1]; exact hfull
+
+/-! ## Several services made from one layer value -/
+
+/-- Each service made from the layer counts its own trials: in every history over any number of services, a half-open
+service has admitted at most `permitted` trials that are still accounted for, whatever the other services are doing. -/
+theorem trials_bounded_per_service (cfg : Cfg) (mops : List (Nat × Op)) (k : Nat)
+    (h : ((runM cfg mops).get k).circ.st = .halfOpen) :
+    callsSince ((runM cfg mops).get k).log
+      = ((runM cfg mops).get k).circ.hoAdmitted + ((runM cfg mops).get k).circ.released ∧
+    ((runM cfg mops).get k).circ.hoAdmitted ≤ max cfg.permitted 1 := by
+  obtain ⟨ops, ho⟩ := every_service_is_a_run cfg mops k
+  rw [ho] at h ⊢
+  exact trials_accounting cfg ops h
+
+/-- Non-vacuity: `permitted = 1`, trial 1 in flight; caller 2 is rejected; caller 3 is rejected as well (one inner call in all);
+a second service made from the same layer is still closed and admits caller 4. -/
+example :
+    let cfg : Cfg := { waitMs := 10, permitted := 1 }
+    let ops := [(0, Op.forceOpen), (0, .adv 10), (0, .arrive 1 ⟨500, .ok⟩ 0), (0, .poll 1), (0, .arrive 2 ⟨0, .ok⟩ 0), (0, .poll 2),
+                (0, .arrive 3 ⟨0, .ok⟩ 0), (0, .poll 3), (1, .arrive 4 ⟨0, .ok⟩ 0), (1, .poll 4)]
+    ((runM cfg ops).get 0).circ.st = .halfOpen ∧ ((runM cfg ops).get 0).circ.hoAdmitted = 1 ∧
+    callsSince ((runM cfg ops).get 0).log = 1 ∧
+    ((runM cfg ops).get 0).log.getLast? = some (10, CEv.result 3 .openCircuit) ∧
+    ((runM cfg ops).get 1).circ.st = .closed ∧ ((runM cfg ops).get 1).log.getLast? = some (10, CEv.result 4 (.ok 1)) := by
   decide
 
 end TR.Props.C09
